@@ -7,13 +7,22 @@
 #include <string.h>
 #include "ext2_fs.h"
 #include "ext2fs.h"
-/* STUB: (re-open harness only, VF_GETMEM_MIN) allocations are at least 1024 bytes: check_filesystem() reads the 1024-byte superblock copy into a buffer of `blocksize` bytes, which is >= 1024 in reality but 48 at the scaled undo block size */
-#ifndef VF_GETMEM_MIN
-#define VF_GETMEM_MIN 0
-#endif
+/* STUB: (re-open harness only) vf_getmem_min is armed with 1024 before try_reopen_undo_file(): the NEXT allocation -- check_filesystem()'s superblock buffer of `blocksize` bytes, >= 1024 in reality but 48 at the scaled undo block size -- gets at least 1024 bytes (one-shot) */
+static unsigned long vf_getmem_min;
 static inline errcode_t vf_get_mem(unsigned long size, void *ptr)
 {
-	void *pp = malloc(size < VF_GETMEM_MIN ? VF_GETMEM_MIN : size);
+	void *pp;
+	if (size < vf_getmem_min)
+		size = vf_getmem_min;
+	vf_getmem_min = 0;
+#ifdef VF_ALLOC_CONST
+	/* STUB: (re-open harness) every other allocation gets the constant VF_ALLOC_CONST bytes (checked to suffice), so that no allocation size depends on bytes read from the undo file */
+	if (size != SUPERBLOCK_SIZE) {
+		PROP(size <= VF_ALLOC_CONST, "env: allocation fits the constant allocation size");
+		pp = malloc(VF_ALLOC_CONST);
+	} else
+#endif
+	pp = malloc(size);
 	if (!pp)
 		return EXT2_ET_NO_MEMORY;
 	*(void **) ptr = pp;
